@@ -49,7 +49,10 @@ theorem isCounterClockwise_eq (ring : List Pos) :
         show vs.map Pos.pt ++ [v.pt] = (vs ++ [v]).map Pos.pt by simp, List.zip_map]
       rfl
     simp only [hz, List.map_map, Function.comp_def, term_eq]
-    first | rfl | simp
+    first
+      | rfl
+      | (simp; done)
+      | (simp only [Except.ok.injEq]; rw [Bool.eq_iff_iff]; simp [not_lt, not_le]; done)
 
 /-- `Coordinate.__eq__` of the source is equality of (longitude, latitude, z) -/
 theorem coordEq_eq (a b : Pos) : coordEq rt a b = (a == b) := by
